@@ -49,11 +49,12 @@ def tail_weight(s):
         w3 = w[:, None, None] * w[None, :, None] * w[None, None, :]
         _TAIL[s] = float(w3[q2 >= (4 * s + 1) ** 2].sum())
     return _TAIL[s]
-RULE = ("one case = (box nx,ny,nz in 8..16 quick / 8..48 thorough (plus a share of tiny boxes 5..8 that the model also filters end to end with its own DFT), cubic or not, even and odd; filter low|high|band; cutoff(s) 1..N/2 "
+RULE = ("one case = (box nx,ny,nz in 8..16 quick (4 % up to 48) / 8..48 thorough (plus a share of tiny boxes 5..8 that the model also filters end to end with its own DFT), cubic or not, even and odd; filter low|high|band; cutoff(s) 1..N/2 "
         "(incl. exactly shape[0]//2 with a hard edge) given as Fourier pixels or as resolution+pixel size on cubic AND non-cubic boxes (box edge = shape[0], the documented convention; incl. exact .5 ties of box*px/res); Gaussian width from "
         "{0,1,2,3,4} or a dyadic non-integer in (0,4]; band-passes with equal, default (3/2), arbitrary and 'narrow band with the softer low-pass edge' width pairs, nested and inverted; in ~30 % of the cases the width keyword(s) are OMITTED "
         "(signature defaults 3/2/3/2 run; the judged width is the documented default) and pixel_size is left out when unused; in ~20 % earlier low/high-pass calls with the same box/cutoff/width run first in the same process on the same array "
-        "object; 12 % 'margin' cases (sigma<=2, box large enough for bins on both sides of cutoff±(4s+1)). Input = seeded normal random field (+DC offset) or a sweep of pure plane waves "
+        "object; thorough and the search stage also sweep EVERY hard cutoff 1..N/2 on the cubic boxes 48 and 47 (lattice points exactly on the cutoff sphere); 3 % 'reject' cases (no cutoff at all, or a resolution without pixel size: ValueError expected, the model's getFilterRadius = none); 12 % 'margin' cases (sigma<=2, box large enough for bins on both sides of cutoff±(4s+1)). Input = seeded normal random field (+DC offset; ~38 % of the maps are int16 / int32 arrays of amplitude 3e2..2e5, float64 maps scaled by 1e5 / 2e4 / 1e-5, or float32 maps as cryomap.read returns them; "
+        "cutoffs are handed over as np.int64 in ~25 %, integral widths / pixel sizes as Python ints in ~30 % of the cases; widths include decimals such as 1.3, 2.7, 3.85) or a sweep of pure plane waves "
         "cos(2*pi*k.p/N+phase) over every integer frequency k of the box (small boxes) or a random subset). The real filter runs on the "
         "input, on a second field, on a*x+b*y, on a circularly shifted x, with the companion low-pass(es), with the documented defaults written out, with fourier_pixels=round(shape[0]*px/res), and once more at the end of the history; the caller's "
         "array is compared before/after EVERY call; the gain of every DFT bin is "
@@ -69,17 +70,25 @@ ASSUMPTIONS = [
     "'gain 1 inside cutoff-4s-1 / 0 outside cutoff+4s+1' is checked with the PROVED bounds of Props/C12.soft_gain_inside/outside: 1-gain <= tail3(ker, floor((4s+1)^2)), "
     "gain <= tail3(ker, ceil((4s+1)^2)-1), both evaluated by the driver on the executed kernel together with the per-bin hypotheses (fitsInside/fitsOutside); "
     "the judge adds only the FFT round-off 1e-9",
-    "'non-increasing in between' is a clause of the statement at 1e-9 exactly where it is a theorem (Props/C12.soft_eff_gain_mono_step_full: every step of one index away from frequency 0 on an axis whose ball stays off both faces of the mask "
-    "box — monoAxisOk, reported by the driver — at every position of the other indices; diagonal steps are chains of these). On the remaining axis/diagonal rays (the ball touches a face; mode='nearest' continues the mask and the unchanged "
-    "code rises by up to ~4e-8) a rise is a finding only beyond tail3(ker, floor((4s+1)^2)), and only on boxes >= 8 per axis (the statement's sizes); measured: <= 0.4 % of that weight on 8..48 boxes",
-    "the band-pass gain range [0,1] is checked on EVERY band-pass; failures with different edge widths are the open known finding C12-K1, failures of inverted bands (hp cutoff > lp cutoff) with equal widths are reported as C12-K2 (proposed), "
-    "both only while bandpass == lowpass(lp) - lowpass(hp) holds on the same input",
+    "'non-increasing in between' is judged exactly as far as it is a theorem, on every axis of every box: Props/C12.soft_eff_gain_axis_step_checked — every step of one index away from "
+    "frequency 0 (Nyquist landing included) at every position of the other two indices raises the effective gain by at most faceRise/2, where faceRise = 0 unless the axis is even, the ball "
+    "reaches its upper face (n//2 + cutoff + 1 >= n) and the kernel reaches n/2 (then: the kernel weight at offset n/2, evaluated by the driver on the executed kernel and cross-checked "
+    "in Python). The judge adds only the FFT round-off 1e-9. No empirical bound is left in this clause (the former tail-weight bound on 26 rays is gone)",
+    "the band-pass gain range [0,1] is checked on EVERY band-pass; NEGATIVE gains in [-1, 0) that the model predicts to 1e-9 are the open known findings C12-K1 (different edge widths) and C12-K2 (inverted band, "
+    "equal widths), both only while bandpass == lowpass(lp) - lowpass(hp) holds on the same input; a gain above 1 or below -1 is never one of them",
     "the model's own DFT (naive separable, Float cos/sin twiddles) agrees with numpy.fft (pocketfft) within 1e-9 on boxes <= 8 per axis (compared on every such case)",
     "Python round(float) = round-half-even of the exact value of the double (the model decodes the IEEE bits and rounds exactly)",
-    "inputs are float64 arrays (numpy 2 transforms float32 maps in single precision: outside the tolerances used here)",
+    "maps are float64, int16 or int32 arrays (transformed in double precision: all clauses at 1e-9 x amplitude) or float32 arrays: numpy >= 2 transforms those in single precision, so for a float32 map the "
+    "clause checked is 'same result as for the same values in float64' within 8*eps32*log2(N) x ||x|| in the 2-norm (forward-FFT error bound eta*log2 N, eta ~ 3.3 eps32, Higham Thm 24.2; measured <= 0.04*eps32*log2 N), "
+    "while gains, linearity, shifts ... are measured on the float64 copy",
+    "the statement is silent about: the caller's array being left unchanged, call-history independence, the meaning of an omitted keyword, the Python type of the Fourier-pixel count and the dtype of the result; "
+    "deviations there are reported as kind 'corr' (model / documentation disagree), never as a spec violation",
     "the box edge of a non-cubic map is shape[0] (docstrings speak of 'box size'; anchored by box_edge_documented)",
 ]
 TRUSTED = ["harness gain measurement fft(out)/fft(in) and the plane-wave generator (props/c12.py)", "Drv/C12.lean JSON glue, Float.exp/cos/sin, float bit decoding (Model/C12.fracOfBits)",
+           "the step from the theorems' number types to the driver's: the *_complex theorems are about dft3/idft3 over the complex numbers with exact twiddles; the driver runs the SAME polymorphic terms at Cx Float with "
+           "twiddles built from Float.cos/sin — that link is numeric (the model's DFT output is compared with the real output on boxes <= 8 per axis only; on boxes 9..48 numpy.fft is tied to the DFT laws by probes only); "
+           "ValidKernel / UnimodalKernel are stated over ordered fields and cannot be instantiated at Float: that the executed Float kernel is non-negative, unit-sum, symmetric and non-increasing is probed every run",
            "the symbolic path/alpha-renaming dump of the translator (props/c12.py flow_paths/body_dump)"]
 
 REL_MAP = "cryocat/cryomap.py"
@@ -96,11 +105,59 @@ import copy as _copy
 
 
 def _norm(n):
-    return core.norm_expr(n)
+    return core.norm_expr(_canon(n))
+
+
+LOG_CALLS = {"print", "warn", "warning", "info", "debug", "error", "log"}
+
+
+class _Canon(ast.NodeTransformer):
+    """H1: what a dump must NOT depend on. (a) the TEXT of log / exception messages: a `print(...)`, `warnings.warn(...)`,
+    `logger.info(...)` call keeps only the expressions it formats (`print(f"… {e} …")` -> `print(e)`), a raised exception keeps
+    only its type; (b) type annotations (dropped where arguments are dumped, `x: T = v` is treated as `x = v` by `_exec`);
+    (c) two spellings of the same array: `np.ones(S) - M` and `1.0 - M` / `1 - M`, where `M` contains a `spherical_mask(S, …)`
+    call with the SAME first argument `S` (then the broadcast `1 - M` has the shape of `np.ones(S) - M`): both become `1-M`."""
+
+    def visit_Call(self, n):
+        self.generic_visit(n)
+        f = n.func
+        name = f.attr if isinstance(f, ast.Attribute) else (f.id if isinstance(f, ast.Name) else None)
+        if name in LOG_CALLS:
+            keep = []
+            for a in list(n.args) + [k.value for k in n.keywords]:
+                if isinstance(a, ast.JoinedStr):
+                    keep += [v.value for v in a.values if isinstance(v, ast.FormattedValue)]
+                elif not (isinstance(a, ast.Constant) and isinstance(a.value, str)):
+                    keep.append(a)
+            return ast.Call(func=f, args=keep, keywords=[])
+        return n
+
+    def visit_Raise(self, n):
+        self.generic_visit(n)
+        if isinstance(n.exc, ast.Call):
+            return ast.Raise(exc=n.exc.func, cause=None)
+        return n
+
+    def visit_BinOp(self, n):
+        self.generic_visit(n)
+        if isinstance(n.op, ast.Sub):
+            shapes = {ast.unparse(c.args[0]) for c in ast.walk(n.right) if isinstance(c, ast.Call) and c.args
+                      and ((isinstance(c.func, ast.Attribute) and c.func.attr == "spherical_mask") or (isinstance(c.func, ast.Name) and c.func.id == "spherical_mask"))}
+            L = n.left
+            one = isinstance(L, ast.Constant) and not isinstance(L.value, bool) and isinstance(L.value, (int, float)) and L.value == 1
+            ones = (isinstance(L, ast.Call) and len(L.args) == 1 and not L.keywords and ast.unparse(L.func) in ("np.ones", "numpy.ones")
+                    and ast.unparse(L.args[0]) in shapes)
+            if shapes and (one or ones):
+                return ast.BinOp(left=ast.Constant(1), op=ast.Sub(), right=n.right)
+        return n
+
+
+def _canon(node):
+    return ast.fix_missing_locations(_Canon().visit(_copy.deepcopy(node)))
 
 
 def _n1(node):
-    return ast.unparse(node).replace(" ", "").replace("\n", ";")
+    return ast.unparse(_canon(node)).replace(" ", "").replace("\n", ";")
 
 
 def _has_call(e):
@@ -171,8 +228,9 @@ def _exec(stmts, states, fnames):
                 for t in s.targets:
                     _store(st, t, v)
                 nxt.append(st)
-            elif isinstance(s, ast.AnnAssign) and s.value is not None:
-                _store(st, s.target, st.sub(s.value))
+            elif isinstance(s, ast.AnnAssign):
+                if s.value is not None:                        # `x: T = v` is `x = v`; a bare `x: T` is nothing (H1)
+                    _store(st, s.target, st.sub(s.value))
                 nxt.append(st)
             elif isinstance(s, ast.AugAssign):
                 cur = st.sub(ast.Name(id=s.target.id, ctx=ast.Load())) if isinstance(s.target, ast.Name) else st.sub(_copy.deepcopy(s.target))
@@ -247,6 +305,14 @@ def body_dump(fn):
             self.generic_visit(n)
 
     Collect().visit(fn)
+    # H2: a name that is only ever stored (a discard: `_`, or `_` renamed to `unused`) takes no number and is dumped as `_`,
+    # each occurrence on its own; the numbering L0, L1, ... follows the order of the first BINDING occurrence of the others
+    loaded = {n.id for n in ast.walk(fn) if isinstance(n, ast.Name) and isinstance(n.ctx, ast.Load)}
+    inner_defs = {n.name for n in ast.walk(fn) if isinstance(n, ast.FunctionDef) and n is not fn}
+    keep = [k for k in names if k in loaded or k in inner_defs]
+    discards = [k for k in names if k not in keep]
+    names = {k: f"L{i}" for i, k in enumerate(keep)}
+    names.update({k: "_" for k in discards})
 
     class Ren(ast.NodeTransformer):
         def visit_Name(self, n):
@@ -263,8 +329,19 @@ def body_dump(fn):
         def visit_Expr(self, n):
             return None if isinstance(n.value, ast.Constant) and isinstance(n.value.value, str) else self.generic_visit(n)
 
-    f2 = Ren().visit(_copy.deepcopy(fn))
+    f2 = _canon(Ren().visit(_copy.deepcopy(fn)))       # message texts and exception arguments dropped (H1)
+    for nd in ast.walk(f2):
+        if isinstance(nd, ast.FunctionDef):
+            nd.returns = None                                     # return annotations (H1)
     out = []
+    class DropAnn(ast.NodeTransformer):
+        def visit_AnnAssign(self, n):
+            self.generic_visit(n)
+            if n.value is None:
+                return None                                   # a bare declaration `x: T`
+            return ast.Assign(targets=[n.target], value=n.value)
+
+    f2 = ast.fix_missing_locations(DropAnn().visit(f2))
     for st in f2.body:
         for line in ast.unparse(st).split("\n"):
             depth = (len(line) - len(line.lstrip())) // 4
@@ -273,7 +350,11 @@ def body_dump(fn):
 
 
 def signature(fn):
-    return _n1(fn.args)
+    """parameter names, order, kinds and defaults; type annotations dropped (H1: adding a type hint is a harmless edit)"""
+    a = _copy.deepcopy(fn.args)
+    for x in a.posonlyargs + a.args + a.kwonlyargs + ([a.vararg] if a.vararg else []) + ([a.kwarg] if a.kwarg else []):
+        x.annotation = None
+    return _n1(a)
 
 
 def _calls(node, attr):
@@ -574,7 +655,7 @@ end CryoCat.Gen.C12
 
 # ------------------------------------------------------------------ helpers shared by generator / implementation / judge
 SIGMAS_INT = [0.0, 1.0, 2.0, 3.0, 4.0]
-SIGMAS_FRAC = [0.5, 0.75, 1.5, 2.25, 2.5, 3.5, 0.125]
+SIGMAS_FRAC = [0.5, 0.75, 1.5, 2.25, 2.5, 3.5, 0.125, 1.3, 2.7, 0.9, 3.85, 1.75, 0.35]    # dyadic and decimal (H3) widths in (0, 4]
 
 
 def sfreq(n):
@@ -588,19 +669,49 @@ def radius2(dims):
     return kx * kx + ky * ky + kz * kz
 
 
-def _field(dims, seed):
+def _field(dims, seed, dtype=None, scale=None):
+    """the map of a case. dtype None = float64; 'int16' / 'int32' = an integer-typed map as read from an MRC/EM file of that mode (the
+    values are the rounded scaled field); 'float32' = float64 values that are exactly representable in single precision (the harness
+    runs its measurements on them in double and, separately, the real filter on the float32 array). scale multiplies the N(0,1) field:
+    maps are not O(1) in practice (H3: int16 densities ~1e3, normalised maps 1e-5 … 1e5)."""
     r = np.random.default_rng(seed)
     x = r.standard_normal(dims)
     if seed % 3 == 0:
         x = x + r.uniform(-5, 5)
     if seed % 7 == 0:
         x = np.round(x * 8) / 8
+    sc = 1.0 if scale is None else float(scale)
+
+    def typed(a):
+        a = a * sc
+        if dtype in ("int16", "int32"):
+            return np.rint(a).astype(dtype)
+        if dtype == "float32":
+            return a.astype(np.float32).astype(np.float64)
+        return a
     # the gain of a bin is measured as fft(out)/fft(in): every bin of the input must be excited (a dyadic-grid field can sum to exactly 0)
     for k in range(1, 50):
-        if np.abs(np.fft.fftn(x)).min() > 1e-2:
+        y = typed(x)
+        if np.abs(np.fft.fftn(y)).min() > 1e-2 * sc:
             break
         x.flat[(k * 7919) % x.size] += 1.0 + 0.125 * k
-    return x
+    return typed(x)
+
+
+def _field_of(case):
+    inp = case["input"]
+    return _field(tuple(case["dims"]), inp["seed"], inp.get("dtype"), b2f(inp["scale"]) if "scale" in inp else None)
+
+
+def _num(case, key, v):
+    """H3: the TYPE a user hands a parameter in: Fourier pixels as numpy integers (`np.int64`, what `shape[0] // 4` or an array element
+    is), integral widths / pixel sizes as Python ints (the signature defaults are the ints 3 and 2)"""
+    how = case.get("types", {}).get(key)
+    if how == "np.int64":
+        return np.int64(v)
+    if how == "int" and float(v) == int(v):
+        return int(v)
+    return v
 
 
 def _wave(dims, k, phase):
@@ -609,10 +720,10 @@ def _wave(dims, k, phase):
     return np.cos(2 * np.pi * arg + phase)
 
 
-def _cut_kwargs(cut, prefix=""):
+def _cut_kwargs(cut, prefix="", case=None):
     kw = {}
     if "fp" in cut:
-        kw[prefix + "fourier_pixels"] = cut["fp"]
+        kw[prefix + "fourier_pixels"] = _num(case or {}, "fp", cut["fp"])
     if "res" in cut:
         kw[prefix + "target_resolution"] = b2f(cut["res"])
     return kw
@@ -631,11 +742,11 @@ def _sigma_kwargs(case):
     if case["kind"] == "band":
         kw = {}
         if "lp_sigma" not in omit:
-            kw["lp_gaussian"] = b2f(case["lp_sigma"])
+            kw["lp_gaussian"] = _num(case, "sigma", b2f(case["lp_sigma"]))
         if "hp_sigma" not in omit:
-            kw["hp_gaussian"] = b2f(case["hp_sigma"])
+            kw["hp_gaussian"] = _num(case, "sigma", b2f(case["hp_sigma"]))
         return kw
-    return {} if "sigma" in omit else {"gaussian": b2f(case["sigma"])}
+    return {} if "sigma" in omit else {"gaussian": _num(case, "sigma", b2f(case["sigma"]))}
 
 
 class _Filter:
@@ -663,17 +774,17 @@ class _Filter:
     def _px_kw(self, explicit=False):
         if self.px is None and (self.case.get("omit_px") and not explicit):
             return {}
-        return {"pixel_size": self.px}
+        return {"pixel_size": None if self.px is None else _num(self.case, "px", self.px)}
 
     def __call__(self, x, explicit=False):
         """explicit=True: every keyword written out with the DOCUMENTED defaults in place of the omitted ones"""
         c = self.case
         sk = _sigma_kwargs(c if not explicit else dict(c, omit=[]))
         if c["kind"] == "band":
-            kw = dict(_cut_kwargs(c["lp"], "lp_"), **_cut_kwargs(c["hp"], "hp_"))
+            kw = dict(_cut_kwargs(c["lp"], "lp_", c), **_cut_kwargs(c["hp"], "hp_", c))
             return self._call(self.m.bandpass, x, **self._px_kw(explicit), **sk, **kw)
         fn = self.m.lowpass if c["kind"] == "low" else self.m.highpass
-        return self._call(fn, x, **self._px_kw(explicit), **sk, **_cut_kwargs(c["cut"]))
+        return self._call(fn, x, **self._px_kw(explicit), **sk, **_cut_kwargs(c["cut"], "", c))
 
     def single(self, x, kind, which):
         """low- or high-pass with the parameters of one cutoff of the case ('' = the cutoff of a low/high case, 'lp'/'hp' of a band)"""
@@ -696,6 +807,8 @@ class _Filter:
 # ------------------------------------------------------------------ generators
 def _dims(rng, tier):
     hi = 16 if tier in ("quick", "search") else 48
+    if tier == "quick" and rng.random() < 0.04:
+        hi = 48          # H3: a few boxes up to the bound the quantifier names in every quick run too
     k = rng.random()
     if tier == "thorough" and k < 0.55:
         hi = 20          # keep most thorough cases cheap; the rest go up to 48
@@ -743,7 +856,34 @@ def _res_cut(rng, n, r):
     return dict(res=f2b(res)), px, "generic"
 
 
+MAP_KINDS = [  # (share, dtype, scales): what maps look like in practice (H3); the unchanged code passes all of them
+    (0.10, "int16", [1000.0, 300.0]),        # MRC mode 1: densities of a few thousand; output must NOT be cast back (M-6)
+    (0.06, "int32", [2e5]),                  # amplitudes beyond the int16 range
+    (0.08, None, [1e5, 2e4]),                # float64 map of large amplitude: a clip to the int16 range breaks linearity (M-7)
+    (0.06, None, [1e-5]),                    # tiny amplitude: absolute thresholds / single-precision casts show
+    (0.08, "float32", [1.0, 1e3]),           # what cryomap.read returns for a file
+]
+
+
+def _map_kind(rng, inp):
+    k = rng.random()
+    for share, dt, scales in MAP_KINDS:
+        if k < share:
+            if dt:
+                inp["dtype"] = dt
+            sc = rng.choice(scales)
+            if sc != 1.0:
+                inp["scale"] = f2b(sc)
+            break
+        k -= share
+    return inp
+
+
 def _input(rng, dims, tier):
+    return _map_kind(rng, _input0(rng, dims, tier))
+
+
+def _input0(rng, dims, tier):
     k = rng.random()
     vol = dims[0] * dims[1] * dims[2]
     if k < 0.6:
@@ -778,11 +918,35 @@ def _margin_case(rng, tier):
     else:
         dims = [rng.randint(lo, hi) for _ in range(3)]
     r = rng.randint(M, min(dims) // 2) if rng.random() < 0.8 else rng.randint(M, max(dims) // 2)
-    return dict(dims=dims, kind=rng.choice(["low", "low", "high"]), cut=dict(fp=r), sigma=f2b(s), input=dict(type="field", seed=rng.randrange(1 << 30)),
+    return dict(dims=dims, kind=rng.choice(["low", "low", "high"]), cut=dict(fp=r), sigma=f2b(s), input=_map_kind(rng, dict(type="field", seed=rng.randrange(1 << 30))),
                 aux=rng.randrange(1 << 30), stream="margin")
 
 
+def _reject_case(rng, tier):
+    """the error branch of get_filter_radius (Model/C12.getFilterRadius = none, Props/C12.filter_radius_rejects): no cutoff at all, or a
+    resolution without a pixel size. The real call must raise ValueError (judged by exception TYPE and raising module, never by message text)"""
+    dims = [rng.randint(8, 12) for _ in range(3)]
+    kind = rng.choice(["low", "high", "band"])
+    case = dict(dims=dims, kind=kind, input=dict(type="field", seed=rng.randrange(1 << 30)), aux=rng.randrange(1 << 30), stream="reject")
+
+    def missing():
+        if rng.random() < 0.5:
+            return {}
+        return dict(res=f2b(rng.choice([10.0, 7.5, 23.4])))       # a resolution, but the case carries no pixel size
+    if kind == "band":
+        good = dict(fp=rng.randint(1, min(dims) // 2))
+        lp, hp = (missing(), good) if rng.random() < 0.5 else (good, missing())
+        case.update(lp=lp, hp=hp, lp_sigma=f2b(_sigma(rng)), hp_sigma=f2b(_sigma(rng)))
+    else:
+        case.update(cut=missing(), sigma=f2b(_sigma(rng)))
+    if rng.random() < 0.5:
+        case["omit_px"] = True
+    return case
+
+
 def _one(rng, tier):
+    if rng.random() < 0.03:
+        return _reject_case(rng, tier)
     if rng.random() < 0.12:
         case = _margin_case(rng, tier)
         _history(rng, case)
@@ -830,7 +994,21 @@ def _one(rng, tier):
         case.update(cut=mk(r), sigma=f2b(s))
     _defaults(rng, case)
     _history(rng, case)
+    _types(rng, case)
     return case
+
+
+def _types(rng, case):
+    """H3: parameter types a user naturally passes (numpy integer cutoffs, int widths and pixel sizes)"""
+    t = {}
+    if rng.random() < 0.25:
+        t["fp"] = "np.int64"
+    if rng.random() < 0.3:
+        t["sigma"] = "int"
+    if rng.random() < 0.3:
+        t["px"] = "int"
+    if t:
+        case["types"] = t
 
 
 def _defaults(rng, case):
@@ -860,12 +1038,28 @@ def _history(rng, case):
         case["pre"] = [dict(kind=rng.choice(["high", "high", "low"]), which="") for _ in range(rng.choice([1, 1, 2]))]
 
 
+def _hard_sweep(rng):
+    """EVERY hard cutoff 1..N/2 on the largest even and the largest odd cubic box of the quantifier: integer frequencies that lie exactly ON
+    the cutoff sphere off the axes exist only for some radii (5: (3,4,0); 13: (3,4,12), (0,5,12); 17: (1,12,12), (8,9,12); 23 ...), i.e.
+    mostly on boxes >= 26 — a membership test that rounds differently there is invisible on small boxes"""
+    for N in (48, 47):
+        for r in range(1, N // 2 + 1):
+            yield dict(dims=[N, N, N], kind="low" if (r + N) % 3 else "high", cut=dict(fp=r), sigma=f2b(0.0),
+                       input=dict(type="field", seed=rng.randrange(1 << 30)), aux=rng.randrange(1 << 30), stream="hard-sweep")
+
+
+def search_cases(rng, broken, anchors):
+    """extra cases of the search stage (something broke, no failing input yet)"""
+    return list(_hard_sweep(rng))
+
+
 def generate(rng, tier, n):
     if tier == "thorough":     # every cutoff 1..N/2 x every integer width on one even and one odd box, all plane waves
         for N in (8, 9):
             for r in range(1, N // 2 + 1):
                 for s in SIGMAS_INT:
                     yield dict(dims=[N, N, N], kind="low", cut=dict(fp=r), sigma=f2b(s), input=dict(type="allwaves", seed=r), aux=r * 10 + int(s))
+        yield from _hard_sweep(rng)
     for _ in range(n):
         yield _one(rng, tier)
 
@@ -896,6 +1090,12 @@ def shrink(case):
             yield dict(case, pre=case["pre"][1:])
     if case.get("omit"):
         yield {k: v for k, v in case.items() if k != "omit"}
+    if case.get("types"):
+        yield {k: v for k, v in case.items() if k != "types"}
+    if "dtype" in case["input"] or "scale" in case["input"]:
+        yield dict(case, input={k: v for k, v in case["input"].items() if k not in ("dtype", "scale")})
+        if "dtype" in case["input"] and "scale" in case["input"]:
+            yield dict(case, input={k: v for k, v in case["input"].items() if k != "dtype"})
     sk = [k for k in (["sigma"] if case["kind"] != "band" else ["lp_sigma", "hp_sigma"]) if k not in case.get("omit", [])]
     for k in sk:
         if b2f(case[k]) != 0.0:
@@ -937,7 +1137,11 @@ def run_impl(case):
             cuts = ["cut"] if case["kind"] != "band" else ["lp", "hp"]
             aux = np.random.default_rng(case["aux"])
             inp = case["input"]
-            x = _field(dims, inp["seed"])
+            x = _field_of(case)
+            amp = b2f(inp["scale"]) if "scale" in inp else 1.0
+            if case.get("stream") == "reject":
+                y = f(x)       # expected to raise (the framework records type and raising module)
+                return dict(accepted=True, ret_type=type(y).__name__)
             # G2: earlier calls of the same process on the SAME array object with the same box / cutoff / width
             pre = []
             for pc in case.get("pre", []):
@@ -946,12 +1150,14 @@ def run_impl(case):
             out["ret_type"] = type(y).__name__
             out["dtype"] = str(np.asarray(y).dtype)
             out["shape"] = list(np.shape(y))
-            out["finite"] = bool(np.all(np.isfinite(y))) if np.asarray(y).dtype.kind in "fc" else False
+            out["finite"] = bool(np.all(np.isfinite(y))) if np.asarray(y).dtype.kind in "fciu" else False
             yc = np.asarray(y)
             out["aliases_input"] = bool(isinstance(y, np.ndarray) and np.shares_memory(y, x))
-            if yc.shape != dims or yc.dtype.kind not in "fc":
+            if yc.shape != dims or yc.dtype.kind not in "fciu":
                 out["input_mutated"] = list(f.mutated)
                 return out
+            if yc.dtype.kind in "iu":      # an integer array came back (recorded as it is, G3); the clauses are evaluated on its values
+                yc = yc.astype(np.float64)
             X = np.fft.fftn(x)
             G = np.fft.fftn(yc) / X
             out["gain"] = _bits(G.real)
@@ -966,11 +1172,19 @@ def run_impl(case):
             if case.get("omit") or case.get("omit_px"):
                 out["default_dev"] = float(np.abs(np.asarray(f(x, explicit=True)).real - yr).max())
             # linearity
-            x2 = aux.standard_normal(dims)
+            x2 = aux.standard_normal(dims) * amp
             a, b = [float(v) for v in aux.choice([-2.0, -0.5, 0.25, 1.0, 1.5, 3.0], 2)]
             y2 = np.asarray(f(x2)).real
             y12 = np.asarray(f(a * x + b * x2)).real
             out["lin"] = dict(a=a, b=b, dev=float(np.abs(y12 - (a * yr + b * y2)).max()))
+            if inp.get("dtype") == "float32":
+                # the map as cryomap.read returns it for a file: the SAME values in single precision. numpy >= 2 transforms it in single
+                # precision; the result must be the double-precision result within the float32 FFT error (tolerance: see judge)
+                x32 = x.astype(np.float32)
+                y32 = np.asarray(f(x32))
+                ok32 = y32.shape == dims and y32.dtype.kind == "f"
+                out["f32"] = dict(dtype=str(y32.dtype), shape=list(y32.shape), finite=bool(np.all(np.isfinite(y32))) if y32.dtype.kind in "fc" else False,
+                                  rel=float(np.linalg.norm((y32.astype(np.float64) - yr).ravel()) / np.linalg.norm(x.ravel())) if ok32 else None)
             # circular shift
             s = [int(aux.integers(0, n)) for n in dims]
             ys = np.asarray(f(np.roll(x, s, axis=(0, 1, 2)))).real
@@ -1073,10 +1287,10 @@ def requests(case, obs):
     out = [rq]
     cuts = ["cut"] if case["kind"] != "band" else ["lp", "hp"]
     for c in cuts:
-        if "res" in case[c]:
+        if "res" in case[c] and "px" in case:
             out.append(dict(op="res2pix", edge=case["dims"][0], px=case["px"], res=case[c]["res"]))
     if max(case["dims"]) <= TINY and "out" in obs:
-        fq = dict(rq, op="filter", x=_bits(_field(tuple(case["dims"]), case["input"]["seed"])))
+        fq = dict(rq, op="filter", x=_bits(_field_of(case)))
         if "out_shift" in obs:
             fq["roll"] = [-int(v) for v in obs["shift"]["s"]]     # np.roll(x, s)[i] = x[(i - s) mod n] = x[rollIdx d (-s) i]
         out.append(fq)
@@ -1096,10 +1310,26 @@ def mono_axis_ok(n, r):
     return bool(r < n // 2 and n // 2 + r + 1 < n)
 
 
-def _proved_mono_violation(low, dims, ok):
-    """Props/C12.soft_eff_gain_mono_step_full on the measured gain: every single step of one index away from frequency 0 along an axis whose
-    ball stays off the faces (ok[axis]), at EVERY position of the other two indices, INCLUDING the step onto the Nyquist bin of an even axis
-    (-(n/2-1) -> -n/2; proved in Lemmas/C12_Nyq). (Diagonal steps are chains of these.) -> (largest increase, where)"""
+def face_rise_py(n, r, s):
+    """Model/C12.faceRise evaluated in Python (cross-check of the driver's number; fallback when the driver gave none): 0 unless the axis is
+    even, the ball reaches its upper face (n//2 + r + 1 >= n) and the kernel reaches n/2; then the kernel weight at offset n/2"""
+    c = n // 2
+    if c + r + 1 < n or n % 2 == 1:
+        return 0.0
+    t = int(4.0 * s + 0.5)
+    if t < c:
+        return 0.0
+    x = np.arange(-t, t + 1)
+    w = np.exp(-0.5 / (s * s) * x ** 2)
+    w /= w.sum()
+    return float(w[t + c])
+
+
+def _proved_mono_violation(low, dims, ok, allow=(0.0, 0.0, 0.0)):
+    """Props/C12.soft_eff_gain_axis_step_checked on the measured gain: every single step of one index away from frequency 0 along an axis
+    with ok[axis], at EVERY position of the other two indices, INCLUDING the step onto the Nyquist bin of an even axis (-(n/2-1) -> -n/2):
+    the increase is at most allow[axis] (= faceRise/2; 0 where the ball stays off the upper face, the axis is odd or the kernel is
+    shorter than n/2). (Diagonal steps are chains of these.) -> (largest increase beyond the allowance, where)"""
     worst = (0.0, None)
     for ax in range(3):
         n = dims[ax]
@@ -1110,14 +1340,14 @@ def _proved_mono_violation(low, dims, ok):
         for a in range(0, (n - 1) // 2):              # 0 <= a -> a+1 <= (n-1)//2 ; the mirror step -a -> -a-1 stays above -n/2 ... or is the Nyquist bin only when n is even and a+1 = n/2 (excluded by the range)
             for sgn in (1, -1):
                 i0, i1 = (sgn * a) % n, (sgn * (a + 1)) % n
-                inc = g[i1] - g[i0]
+                inc = g[i1] - g[i0] - allow[ax]
                 m = float(inc.max())
                 if m > worst[0]:
                     j = np.unravel_index(int(np.argmax(inc)), inc.shape)
                     worst = (m, (ax, sgn * a, sgn * (a + 1), tuple(int(v) for v in j)))
         if n % 2 == 0 and n >= 4:                     # the Nyquist landing -(n/2-1) -> -n/2 (that bin is its own mirror image)
             i0, i1 = (-(n // 2 - 1)) % n, n // 2
-            inc = g[i1] - g[i0]
+            inc = g[i1] - g[i0] - allow[ax]
             m = float(inc.max())
             if m > worst[0]:
                 j = np.unravel_index(int(np.argmax(inc)), inc.shape)
@@ -1181,24 +1411,27 @@ def _spec_gain(case, kind, radii, sig, g, dims, what, m=None):
         if outside.any() and low[outside].max() > tout + TOL:
             j = tuple(int(v) for v in np.argwhere(outside & (low > tout + TOL))[0])
             out.append(dict(kind="spec", clause="soft-outside", detail=f"{what}: bin {j} radius {R[j]:.3f} >= cutoff+4s+1 = {r+4*s+1}: low-pass gain {low[j]:.9g} exceeds the kernel weight at offsets of length >= 4s+1 ({tout:.6g}, {origin})"))
-        # "non-increasing in between".
-        # (a) where it is a THEOREM (Props/C12.soft_eff_gain_mono_step: axes whose ball stays off both faces of the mask box; every axis-parallel
-        #     step away from frequency 0 at every position, hence every diagonal step too) the measured gain is held to it within FFT round-off;
+        # "non-increasing in between" — judged exactly as far as it is a THEOREM, on every axis of every box (no part left to an empirical
+        # bound): Props/C12.soft_eff_gain_axis_step_checked — each single step of one index away from frequency 0 (Nyquist landing
+        # included), at every position of the other two indices, raises the effective gain by at most faceRise(axis)/2, where faceRise is 0
+        # unless the axis is even, the ball reaches its upper face and the kernel reaches n/2 (then: the kernel weight at offset n/2, the
+        # number the driver evaluates on the executed kernel). Diagonal steps are chains of these. Tolerance: FFT round-off TOL only.
         ok = [mono_axis_ok(n, r) for n in dims]
         if m is not None and "mono_axes" in m and [bool(v) for v in m["mono_axes"]] != ok:
             out.append(dict(kind="corr", clause="mono-axes-vs-model", detail=f"{what}: monoAxisOk per axis: driver {m['mono_axes']}, harness {ok} (dims {list(dims)}, cutoff {r})"))
-        inc, where = _proved_mono_violation(low, dims, ok)
+        fr_py = [face_rise_py(n, r, s) for n in dims]
+        fr = fr_py
+        if m is not None and "face_rise" in m and len(m["face_rise"]) == 3:
+            fr = [b2f(v) for v in m["face_rise"]]
+            if any((a == 0.0) != (b == 0.0) or abs(a - b) > 1e-12 for a, b in zip(fr, fr_py)):
+                out.append(dict(kind="corr", clause="face-rise-vs-model", detail=f"{what}: faceRise per axis: driver {fr}, harness {fr_py} (dims {list(dims)}, cutoff {r}, sigma {s})"))
+        inc, where = _proved_mono_violation(low, dims, [True] * 3, [v / 2 for v in fr])
         if inc > TOL:
             ax, f0, f1, pos = where
-            out.append(dict(kind="spec", clause="soft-monotone", detail=f"{what}: low-pass gain grows by {inc:.3g} from frequency {f0} to {f1} along axis {ax} at the other two indices {pos} "
-                            f"(cutoff {r} keeps the ball off both faces of this axis: non-increasing is proved there, soft_eff_gain_mono_step)"))
-        # (b) on the remaining rays (the ball touches a face of the mask box on a moving axis: mode='nearest' continues the mask and exact
-        #     monotonicity is NOT a theorem — the unchanged code rises by up to ~4e-8 there) an increase is a finding only beyond the proved
-        #     tail weight tail3(ker, floor((4s+1)^2)), the same bound the margin clauses use; boxes below the statement's 8 per axis are left out.
-        inc2, where2 = _ray_violation(low, dims, skip=lambda d: all(ok[i] for i in range(3) if d[i] != 0))
-        if min(dims) >= 8 and inc2 > tin + TOL:
-            out.append(dict(kind="spec", clause="soft-monotone", detail=f"{what}: low-pass gain grows by {inc2:.3g} along ray {where2}, more than the kernel tail weight {tin:.3g} ({origin}) "
-                            f"that bounds what the clamped edge can add (ball touches a face: exact monotonicity not proved here)"))
+            out.append(dict(kind="spec", clause="soft-monotone", detail=f"{what}: low-pass gain grows by {inc + fr[ax] / 2:.3g} from frequency {f0} to {f1} along axis {ax} at the other two indices {pos}; "
+                            f"proved bound for this axis (Props/C12.soft_eff_gain_axis_step_checked): faceRise/2 = {fr[ax] / 2:.3g}"
+                            + (" (the ball stays off the upper face, the axis is odd or the kernel is shorter than n/2: non-increasing is a theorem)" if fr[ax] == 0.0 else
+                               " (even axis, the ball reaches its upper face, the kernel reaches n/2: mode='nearest' may add that much)")))
     return out
 
 
@@ -1209,18 +1442,54 @@ def _fail(obs):
     return [dict(kind="spec", clause="raises", detail=obs["error"] + " @" + obs.get("where", ""))]
 
 
+def _judge_reject(case, obs, resps):
+    """the statement is silent about calls without a cutoff: everything here is kind 'corr' (the model and the documentation reject them)"""
+    out = []
+    m = resps[0] if resps else {}
+    if m.get("error") != "reject:no-cutoff":
+        out.append(dict(kind="corr", clause="model-accepts-no-cutoff", detail=f"the model answered {str(m)[:200]} to a call without a usable cutoff"))
+    if "error" not in obs:
+        out.append(dict(kind="corr", clause="accepts-no-cutoff", detail=f"the call without Fourier pixels and without resolution+pixel size returned a {obs.get('ret_type')} instead of raising ValueError"))
+    else:
+        etype = obs["error"].split(":", 1)[0]
+        if etype != "ValueError" or not obs.get("where", "").startswith("cryomap.py"):
+            out.append(dict(kind="corr", clause="rejects-differently", detail=f"a call without a usable cutoff raised {etype} at {obs.get('where') or 'outside cryocat'}; documented: ValueError from get_filter_radius"))
+    return out
+
+
 def judge(case, obs, resps):
     out = []
+    if case.get("stream") == "reject":
+        return _judge_reject(case, obs, resps)
     if "error" in obs:
         return _fail(obs)
     dims = tuple(case["dims"])
     kind = case["kind"]
     cuts = ["cut"] if kind != "band" else ["lp", "hp"]
+    # clauses the statement is SILENT about are kind "corr" (the model / the documentation say so, the statement does not): the caller's
+    # array is left alone, the same call gives the same result whatever ran before, an omitted keyword means the documented default, the
+    # Fourier-pixel count is an int, the result is a float array (L-9 / G6)
     if obs.get("input_mutated"):
-        out.append(dict(kind="spec", clause="input-mutated", detail=f"the caller's array was changed in place by {obs['input_mutated'][:4]} ({len(obs['input_mutated'])} call(s))"))
-    if obs.get("ret_type", "ndarray") != "ndarray" or obs["shape"] != list(dims) or not obs["dtype"].startswith("float") or not obs["finite"]:
+        out.append(dict(kind="corr", clause="input-mutated", detail=f"the caller's array was changed in place by {obs['input_mutated'][:4]} ({len(obs['input_mutated'])} call(s))"))
+    int_out = obs["dtype"].startswith(("int", "uint"))
+    if obs.get("ret_type", "ndarray") != "ndarray" or obs["shape"] != list(dims) or not (obs["dtype"].startswith("float") or int_out) or not obs["finite"]:
         return out + [dict(kind="spec", clause="real-valued", detail=f"returned {obs.get('ret_type')} dtype {obs['dtype']} shape {obs['shape']} finite={obs['finite']} imag_max={obs.get('imag_max')}")]
-    sc = max(1.0, obs["scale"])
+    if int_out:
+        out.append(dict(kind="corr", clause="return-dtype", detail=f"returned an array of dtype {obs['dtype']} (input dtype {case['input'].get('dtype', 'float64')}): the model's output is a float array; the clauses below are evaluated on its values"))
+    # every deviation below is compared with TOL x the amplitude of the map (FFT round-off is relative to it); maps without an explicit
+    # scale are O(1..5) and keep the historical floor of 1
+    sc = obs["scale"] if ("scale" in case["input"] and obs["scale"] > 0) else max(1.0, obs["scale"])
+    if "f32" in obs:
+        # H4: a float32 map is transformed in single precision by numpy >= 2 (pocketfft); forward-FFT error in the 2-norm <= eta*log2(N)*||x||,
+        # eta ~ 3.3*eps32 (Higham, Accuracy and Stability, Thm 24.2); gain <= 1 and the inverse transform runs in double, so
+        # ||f(x32) - f(x64)||_2 / ||x||_2 <= 8*eps32*log2(N) with a factor 2 in hand (measured on 8..48 boxes: <= 0.04*eps32*log2(N))
+        f32 = obs["f32"]
+        tol32 = 8 * float(np.finfo(np.float32).eps) * math.log2(dims[0] * dims[1] * dims[2])
+        if f32["shape"] != list(dims) or not f32["dtype"].startswith("float") or not f32["finite"]:
+            out.append(dict(kind="spec", clause="real-valued", detail=f"float32 map: returned dtype {f32['dtype']} shape {f32['shape']} finite={f32['finite']}"))
+        elif f32["rel"] is None or not f32["rel"] <= tol32:
+            out.append(dict(kind="spec", clause="float32-map", detail=f"the filter of the float32 map differs from the filter of the same values in float64 by {f32['rel']:.3g} x ||x|| (2-norm), "
+                            f"more than the single-precision FFT error 8*eps32*log2(N) = {tol32:.3g}: not the same gains"))
     g = np.array([b2f(b) for b in obs["gain"]]).reshape(dims)
     if obs["gain_imag_max"] > TOL:
         out.append(dict(kind="spec", clause="real-gain", detail=f"fft(out)/fft(in) has imaginary part {obs['gain_imag_max']:.3g}"))
@@ -1234,20 +1503,20 @@ def judge(case, obs, resps):
         out.append(dict(kind="spec", clause="band-difference", detail=f"bandpass(x) differs from lowpass_lp(x) - lowpass_hp(x) by {obs['band_dev']:.3g}"))
     # the gain is a function of the parameters only: same call, same result, whatever ran before (G2)
     if obs.get("repeat_dev", 0.0) > TOL * sc:
-        out.append(dict(kind="spec", clause="call-history", detail=f"the same call on the same array at the end of the run differs from the first by {obs['repeat_dev']:.3g} ({obs.get('calls')} filter calls in this process for the case)"))
+        out.append(dict(kind="corr", clause="call-history", detail=f"the same call on the same array at the end of the run differs from the first by {obs['repeat_dev']:.3g} ({obs.get('calls')} filter calls in this process for the case)"))
     for pc, dv in zip(case.get("pre", []), obs.get("pre_repeat_dev", [])):
         if not dv <= TOL * sc:
-            out.append(dict(kind="spec", clause="call-history", detail=f"{pc['kind']}pass({pc['which'] or 'cut'}) called before and after the judged call gives results that differ by {dv:.3g}"))
+            out.append(dict(kind="corr", clause="call-history", detail=f"{pc['kind']}pass({pc['which'] or 'cut'}) called before and after the judged call gives results that differ by {dv:.3g}"))
             break
     for pc, dv in zip(case.get("pre", []), obs.get("pre_rel_dev", [])):
         if not dv <= TOL * sc:
             rel = "the same filter" if pc["kind"] == kind else "the complement (high + low = identity)"
-            out.append(dict(kind="spec", clause="complement" if pc["kind"] != kind else "call-history", detail=f"the earlier {pc['kind']}pass call with the same parameters is not {rel} of the judged call: differs by {dv:.3g}"))
+            out.append(dict(kind="spec" if pc["kind"] != kind else "corr", clause="complement" if pc["kind"] != kind else "call-history", detail=f"the earlier {pc['kind']}pass call with the same parameters is not {rel} of the judged call: differs by {dv:.3g}"))
             break
     # an omitted keyword means its documented default (Props/C12.defaults_documented) (G1)
     if obs.get("default_dev", 0.0) > TOL * sc:
         om = case.get("omit", []) + (["pixel_size"] if case.get("omit_px") else [])
-        out.append(dict(kind="spec", clause="signature-default", detail=f"the call that omits {om} differs by {obs['default_dev']:.3g} from the call that passes the documented defaults "
+        out.append(dict(kind="corr", clause="signature-default", detail=f"the call that omits {om} differs by {obs['default_dev']:.3g} from the call that passes the documented defaults "
                         f"({ {k: b2f(case[k]) for k in case.get('omit', [])} }, pixel_size=None)"))
     # the cutoffs the statement prescribes: the Fourier pixels given, else round(box*pixel_size/resolution) with box = shape[0], the documented
     # edge of a non-cubic map (it is silent about pixels AND resolution given together: then the pixels, as the code documents, and only the
@@ -1256,10 +1525,10 @@ def judge(case, obs, resps):
     if "radii_typed" in obs:
         for c, rt in zip(cuts, obs["radii_typed"]):
             if not rt[2]:
-                out.append(dict(kind="spec", clause="resolution-pixels", detail=f"get_filter_radius returned {rt[0]} of type {rt[1]} for {c}: Fourier pixels are an integer count"))
+                out.append(dict(kind="corr", clause="resolution-pixels-type", detail=f"get_filter_radius returned {rt[0]} of type {rt[1]} for {c}: Fourier pixels are an integer count"))
         for rt in obs.get("res2pix", []):
             if not rt[2]:
-                out.append(dict(kind="spec", clause="resolution-pixels", detail=f"resolution2pixels returned {rt[0]} of type {rt[1]}: Fourier pixels are an integer count"))
+                out.append(dict(kind="corr", clause="resolution-pixels-type", detail=f"resolution2pixels returned {rt[0]} of type {rt[1]}: Fourier pixels are an integer count"))
         amb = ["res" in case[c] and "fp" in case[c] for c in cuts]
         got = [rt[0] for rt in obs["radii_typed"]]
         if all(rt[2] for rt in obs["radii_typed"]):
@@ -1284,7 +1553,7 @@ def judge(case, obs, resps):
         if g.min() < -TOL or g.max() > 1 + TOL:       # EVERY band-pass: the statement's gain lies in [0,1] (open known findings: see classify)
             j = tuple(int(v) for v in np.unravel_index(int(np.argmin(g)) if g.min() < -TOL else int(np.argmax(g)), g.shape))
             out.append(dict(kind="spec", clause="gain-range", detail=f"band-pass (cutoffs lp {radii[0]} / hp {radii[1]}, widths lp {sl} / hp {sh}) gain range [{g.min():.12g}, {g.max():.12g}], "
-                            f"bin {j} (|k|^2={int(radius2(dims)[j])}) has gain {g[j]:.12g}"))
+                            f"bin {j} (|k|^2={int(radius2(dims)[j])}) has gain {g[j]:.12g}", gmin=float(g.min()), gmax=float(g.max())))
         if sl == 0.0 and sh == 0.0:
             R2 = radius2(dims)
             want = (R2 <= radii[0] ** 2).astype(float) - (R2 <= radii[1] ** 2).astype(float)
@@ -1320,6 +1589,10 @@ def judge(case, obs, resps):
         out.append(dict(kind="corr", clause="res2pix-vs-model", detail=f"resolution2pixels {obs['res2pix']} vs model {[r.get('pixels') for r in rres]}"))
     eff = np.array([b2f(b) for b in m["eff"]]).reshape(dims)
     dev = np.abs(g - eff)
+    for f_ in out:       # for classify(): do the measured band gains agree with the model's own (negative-lobe) prediction?
+        if f_.get("clause") == "gain-range" and "gmin" in f_:
+            f_["model_dev"] = float(dev.max())
+            f_["model_min"] = float(eff.min())
     if dev.max() > TOL:
         j = tuple(int(v) for v in np.argwhere(dev > TOL)[0])
         out.append(dict(kind="corr", clause="gain-vs-model", detail=f"bin {j}: measured gain {g[j]:.12g}, model {eff[j]:.12g}; max deviation {dev.max():.3g} over {int((dev > TOL).sum())} bins"))
@@ -1357,14 +1630,21 @@ def judge(case, obs, resps):
 
 
 def classify(case, obs, finding):
-    """open known findings. C12-K1: a band-pass whose two edges have DIFFERENT Gaussian widths has gains outside [0,1] while
-    bandpass == lowpass(lp) - lowpass(hp) still holds. C12-K2 (proposed by the hardening pass, see the report): the same clause pair
-    cannot hold for an INVERTED band (hp cutoff above lp cutoff) even with equal widths: the code returns gains down to -1."""
+    """open known findings, matched EXACTLY (H5 / L-9).
+    C12-K1: a band-pass whose two edges have DIFFERENT Gaussian widths has NEGATIVE gains while bandpass == lowpass(lp) - lowpass(hp) holds.
+    C12-K2: an INVERTED band (hp cutoff above lp cutoff) with EQUAL widths has negative gains (down to -1), same proviso.
+    Neither covers a gain above 1 (g = L_lp - L_hp <= L_lp <= 1 always: `band_gain_bounds`), a gain below -1, or lobes that are not the
+    model's own prediction (measured gain = model gain within TOL): those stay unlisted findings."""
     if case.get("kind") != "band" or finding.get("kind") != "spec" or finding.get("clause") != "gain-range" or "error" in obs:
         return None
-    sc = max(1.0, obs.get("scale", 1.0))
+    sc = obs["scale"] if ("scale" in case["input"] and obs.get("scale", 0) > 0) else max(1.0, obs.get("scale", 1.0))
     if not ("band_dev" in obs and obs["band_dev"] <= TOL * sc):
         return None              # only while the difference clause holds: a clipped or otherwise altered mask is not this finding
+    gmin, gmax, md = finding.get("gmin"), finding.get("gmax"), finding.get("model_dev")
+    if gmin is None or gmax is None or md is None:
+        return None              # no model answer: the lobes cannot be attributed
+    if not (gmin < -TOL and gmin >= -1 - TOL and gmax <= 1 + TOL and md <= TOL):
+        return None
     cuts = ["lp", "hp"]
     radii = [py_radius(case, case[c]) for c in cuts]
     if b2f(case["lp_sigma"]) != b2f(case["hp_sigma"]):
@@ -1386,6 +1666,9 @@ def _bucket(n):
 
 
 def stats(case, obs, resps):
+    if case.get("stream") == "reject":
+        return {"stream": "reject", "kind": case["kind"], "rejected_with": obs["error"].split(":", 1)[0] if "error" in obs else "ACCEPTED",
+                "model": (resps[0].get("error") if resps else None) or "accepted"}
     d = case["dims"]
     cuts = ["cut"] if case["kind"] != "band" else ["lp", "hp"]
     st = {"kind": case["kind"], "box": "cubic" if d[0] == d[1] == d[2] else "non-cubic", "max_edge": _bucket(max(d)),
@@ -1396,6 +1679,9 @@ def stats(case, obs, resps):
     st["keywords_omitted(G1)"] = "+".join(sorted(case.get("omit", [])) + (["pixel_size"] if case.get("omit_px") else [])) or "none"
     st["earlier_calls_same_key(G2)"] = "+".join(p_["kind"] + ":" + (p_["which"] or "cut") for p_ in case.get("pre", [])) or "none"
     st["stream"] = case.get("stream", "general")
+    st["map_dtype"] = case["input"].get("dtype", "float64")
+    st["map_scale"] = ("%g" % b2f(case["input"]["scale"])) if "scale" in case["input"] else "1"
+    st["param_types(H3)"] = "+".join(f"{k}:{v}" for k, v in sorted(case.get("types", {}).items())) or "plain"
     if case["kind"] == "band":
         st["band_shape"] = ("inverted" if py_radius(case, case["hp"]) > py_radius(case, case["lp"]) else "nested") + ("+equal-widths" if sig[0] == sig[1] else "+different-widths")
     if "error" in obs or "gain" not in obs:
@@ -1431,10 +1717,15 @@ def stats(case, obs, resps):
         st["margin_tolerance_from"] = origin
         ok = [mono_axis_ok(n, radii[0]) for n in d]
         st["monotone_proved_axes"] = str(sum(ok))
-        inc_p, _ = _proved_mono_violation(low, tuple(d), ok)
-        inc_u, _ = _ray_violation(low, tuple(d), skip=lambda dd: all(ok[i] for i in range(3) if dd[i] != 0))
-        st["increase_on_proved_steps"] = "0" if inc_p <= 0 else ("<1e-12" if inc_p < 1e-12 else ("<1e-9" if inc_p < 1e-9 else ">=1e-9"))
-        st["increase_on_unproved_rays/tail"] = "0" if inc_u <= 0 else ("<1e-9 abs" if inc_u < 1e-9 else ("<1% of tail" if inc_u < 0.01 * tin else ("<100% of tail" if inc_u <= tin else ">tail")))
+        frs = [face_rise_py(n, radii[0], sig[0]) for n in d]
+        zero_ax = [v == 0.0 for v in frs]
+        st["axes_with_faceRise>0"] = str(3 - sum(zero_ax))
+        inc_p, _ = _proved_mono_violation(low, tuple(d), zero_ax)
+        st["increase_on_exactly_monotone_axes"] = "0" if inc_p <= 0 else ("<1e-12" if inc_p < 1e-12 else ("<1e-9" if inc_p < 1e-9 else ">=1e-9"))
+        if not all(zero_ax):
+            inc_u, _ = _proved_mono_violation(low, tuple(d), [not z for z in zero_ax])
+            lim = max(frs) / 2
+            st["increase_on_faceRise_axes/bound"] = "0" if inc_u <= 0 else ("<1e-9 abs" if inc_u < 1e-9 else ("<1% of faceRise/2" if inc_u < 0.01 * lim else ("<=faceRise/2" if inc_u <= lim else ">faceRise/2")))
         st["inside_bins"] = "0" if not ins.any() else ("1-10" if ins.sum() <= 10 else ("11-100" if ins.sum() <= 100 else ">100"))
         st["outside_bins"] = "0" if not outs.any() else ("1-10" if outs.sum() <= 10 else ("11-100" if outs.sum() <= 100 else ">100"))
         if fin is not None:
@@ -1465,11 +1756,12 @@ def sample_view(case):
     for k in ("sigma", "lp_sigma", "hp_sigma", "px"):
         if k in case:
             v[k] = b2f(case[k])
-    for k in ("omit", "omit_px", "pre", "stream"):
+    for k in ("omit", "omit_px", "pre", "stream", "types"):
         if k in case:
             v[k] = case[k]
     inp = case["input"]
-    v["input"] = dict(type=inp["type"], seed=inp.get("seed"), n_waves=len(inp.get("waves", [])) or None)
+    v["input"] = dict(type=inp["type"], seed=inp.get("seed"), n_waves=len(inp.get("waves", [])) or None, dtype=inp.get("dtype", "float64"),
+                      scale=b2f(inp["scale"]) if "scale" in inp else 1.0)
     return v
 
 
@@ -1537,7 +1829,7 @@ LEVEL_TEXT = ("Lean 4 theorems about an executable model of cryomap.lowpass/high
               "with the DFT's algebraic properties, and the model's own separable DFT (executed by the driver) is PROVED to be such a pair over every field "
               "with primitive roots of unity, in particular over the complex numbers with numpy's twiddles; for that DFT the SHIFT THEOREM (dft of the rolled sequence = phase x dft, 1-D by "
               "re-indexing the sum with the rotation, lifted through the three axes) and the HERMITIAN SYMMETRY of the spectrum of a real map (conjugation theorem, Re(ifftn Y) = ifftn(Hermitian part of Y)) "
-              "are proved too, so every operator theorem has a corollary *_complex with NO hypothesis on the transform left: the three filters commute with np.roll, a real map filtered with an even gain "
+              "are proved too, so every operator theorem has a corollary *_complex with no hypothesis on the TRANSFORM left (exact complex arithmetic; the driver's Float run of the same terms is linked numerically, see TRUSTED): the three filters commute with np.roll, a real map filtered with an even gain "
               "(the hard filters) has output spectrum = gain x input spectrum, and with ANY real gain output spectrum = effective gain (g(k)+g(-k))/2 x input spectrum on the box - the array the driver "
               "materialises and the harness compares with the measured gain; high-pass = identity - low-pass and band-pass = "
               "difference of its two low-passes; the hard-edge gain is 1 exactly for integer frequency radius^2 <= cutoff^2 and 0 beyond, on boxes of any size "
@@ -1546,21 +1838,26 @@ LEVEL_TEXT = ("Lean 4 theorems about an executable model of cryomap.lowpass/high
               "1-gain (resp. gain) <= the kernel weight at offsets of squared length > m, which is 0 beyond the kernel's reach sqrt(3)*t (exact plateaus); the gain "
               "is non-increasing along every step (axis-parallel or diagonal) that moves indices away from frequency 0 for symmetric unimodal kernels (the model's kernel is one for every positive monotone "
               "exponential) when the ball stays off the box faces on the moving axes, for the raw and for the effective (np.real-symmetrised, measured) gain - for the latter also onto the Nyquist bin of an even axis - (the high-pass gain non-decreasing); the face hypothesis is proved NECESSARY "
-              "(soft_monotone_false_at_face) and the literal 'non-increasing in the radius' across different directions is proved FALSE (soft_monotone_radial_false); the band-pass gain lies in [-1,1] and in [0,1] for nested equal-width masks, with kernel-checked "
-              "witnesses of negative gains otherwise (C12-K1); round-half-even characterisation of resolution2pixels. Tied to the source by 18 regenerated anchors that do not depend on local variable names (control-flow paths with locals "
+              "(soft_monotone_false_at_face) for exact monotonicity, and WITHOUT it the rise of the effective gain along any step away from frequency 0 is proved to be at most faceRise/2 per moving index (soft_eff_gain_step_bound; faceRise = kernel weight at offset n/2 on an even "
+              "axis whose upper face the ball reaches, 0 on odd axes, off the face, or for kernels shorter than n/2: soft_monotone_fails_only_if characterises the failing configurations) — the clause has no open part left;  the literal 'non-increasing in the radius' across different directions is proved FALSE (soft_monotone_radial_false); the band-pass gain lies in [-1,1] and in [0,1] for nested equal-width masks, with kernel-checked "
+              "witnesses of negative gains otherwise (C12-K1); round-half-even characterisation of resolution2pixels. Tied to the source by 18 regenerated anchors (type annotations, message texts and the spelling np.ones(shape)-mask vs 1-mask do not matter) that do not depend on local variable names (control-flow paths with locals "
               "inlined, alpha-renamed bodies, signatures and defaults), "
               "by measuring the real filters' gains (fft(out)/fft(in), random fields and plane waves at every integer frequency) against the model's gain arrays, and "
               "on boxes <= 8 per axis by comparing the real OUTPUT ARRAY with the model's np.real(ifftn(fftn(x)*gain)) executed on the model's DFT, for the input and for the input rolled with the model's own "
               "rollGrid/rollIdx (the shift the theorems speak about) against the real output on np.roll(x, s)")
 LEVEL_NOTE = ("partial: the literal '= 1 inside cutoff-4s-1, = 0 outside cutoff+4s+1' is false in exact arithmetic for margins below the kernel reach (proved: "
               "soft_edge_full_false_below_reach); proved and checked instead: the deviation is at most the kernel tail weight beyond the margin (<=3.4e-4 for s<=4), "
-              "computed by the driver; 'non-increasing in between' is proved (raw and effective gain, axis-parallel and diagonal steps) only where the ball stays off the faces of "
-              "the mask box on the moving axes; where it touches a face it is refuted in general (soft_monotone_false_at_face: a rise of 1/128 with a 5-tap kernel; the code rises by ~4e-8) and rises are only CHECKED against the kernel tail along the 26 rays "
-              "(that bound is not proved: Props/C12.SoftMonotoneOpen is the only open part of the clause); the step of an index ONTO the Nyquist bin of an even axis is now proved for the effective gain too "
-              "(soft_eff_gain_mono_step_full) and judged; the literal radial order across directions is false "
-              "(soft_monotone_radial_false) and is not part of the check; the DFT shift theorem and the Hermitian-symmetry facts are now PROVED for the model's DFT (filt_shift_complex, "
-              "filt_even_gain_complex, filt_effective_gain_complex carry no hypothesis); what stays assumed is that numpy.fft computes that DFT within round-off (probed); skimage.filters.gaussian is modelled by a recorded, probed assumption; floating "
-              "point vs exact arithmetic within 1e-9; band-pass gain range [0,1] is proved for nested masks with equal widths only; it is CHECKED on every band-pass: with different widths "
-              "(open known finding C12-K1) and for inverted bands (C12-K2, proposed) the real gains are negative")
+              "computed by the driver; 'non-increasing in between' is read along steps that move every index away from frequency 0 (the literal radial order across directions is FALSE, soft_monotone_radial_false) and is now "
+              "proved in full for that reading: exactly non-increasing (raw and effective gain, Nyquist landings included) wherever faceRise = 0 — odd axes, ball off the upper face, kernel shorter than n/2 — and otherwise "
+              "up to faceRise/2 per moving index (soft_eff_gain_step_bound, soft_monotone_face_closed; exact monotonicity is refuted there: soft_monotone_false_at_face, a rise of 1/128 with faceRise 1/8; the real code rises by ~4e-8); "
+              "the harness checks exactly this bound on every single-index step of every case (the former empirical tail bound on 26 rays and the open Prop SoftMonotoneOpen are gone). "
+              "How the statement is read where it is literally false for soft edges: 'a gain that depends on its integer frequency radius' holds for the HARD filter (hard_gain); the soft gain is that ball blurred with a separable "
+              "kernel — a function of the bin, not of the radius alone — and np.real leaves its even part (filt_effective_gain_complex), which is what is measured. "
+              "'Hypothesis-free' refers to the TRANSFORM hypotheses only (shift theorem, Hermitian symmetry, inversion are proved for dft3 over the complex numbers); the driver executes the same terms in Float with cos/sin twiddles, and "
+              "that link is numeric: output arrays are compared on boxes <= 8 per axis, on boxes 9..48 numpy.fft is tied to the DFT laws by probes only; ValidKernel/UnimodalKernel are not instantiable at Float (probed). Several theorems are definitional "
+              "unfoldings kept as anchors of the wording (high_gain_complement, band_gain_difference, res2pix_round, dftC_is_dft3; filt_real_complex holds for any F, Finv). "
+              "What stays assumed: numpy.fft computes the model's DFT within round-off (probed); skimage.filters.gaussian is modelled by a recorded, probed assumption; floating "
+              "point vs exact arithmetic within 1e-9 x amplitude (float32 maps: single-precision FFT bound); band-pass gain range [0,1] is proved for nested masks with equal widths only; it is CHECKED on every band-pass: with different widths "
+              "(open known finding C12-K1) and for inverted bands (C12-K2) the real gains are negative, exactly as the model predicts (band_gain_K1_witness, band_gain_K2_witness)")
 TECHNIQUE = "Lean 4 proof (multiplier algebra over modules, integer index arithmetic, weighted-sum inequalities over ordered fields) + regenerated anchors + measured-gain correspondence"
 DESIGN_REF = "DESIGN.md section 4, C12"
